@@ -169,6 +169,12 @@ func (e *Exec) intrinsic(st *State, fn *ssa.Function, args []Value, callSite str
 			r := c.UF(fmt.Sprintf("%s_%d", nm, len(ts)), BV(64), ts...)
 			st.draws = append(st.draws, Draw{Name: nm, T: r, Kind: "uf", Args: ts})
 			return ret(st, r), true
+		case "vfThorough":
+			return ret(st, c.Bool(e.cfg.Thorough)), true
+		case "vfObserve":
+			t := args[1].(*Term)
+			st.observes = append(st.observes, Draw{Name: e.argStr(args[0]), T: t})
+			return ret(st, nil), true
 		case "vfConcrete":
 			// vfConcrete(x int) int: fork over all feasible values of x (must be few)
 			return e.concretize(st, args[0].(*Term)), true
@@ -499,9 +505,16 @@ func (e *Exec) appendOp(st *State, s *SliceV, t Value, elem types.Type) []Outcom
 	if s.Base != nil {
 		fits = c.BvBin(OpUle, n, s.Cap)
 	}
-	if tl.IsConst() == false {
-		// appending zero elements never reallocates
-		fits = c.Or(fits, c.Eq(tl, c.BVConst(0, 64)))
+	if !tl.IsConst() {
+		// appending zero elements returns the slice unchanged
+		z, nz := e.branch(st, c.Eq(tl, c.BVConst(0, 64)))
+		if z != nil {
+			outs = append(outs, Outcome{kind: OReturn, st: z, val: s})
+		}
+		if nz == nil {
+			return outs
+		}
+		st = nz
 	}
 	in, re := e.branch(st, fits)
 	if in != nil {
@@ -586,26 +599,66 @@ type IterV struct {
 	Keys []int
 }
 
-func (e *Exec) mkRange(st *State, fr *Frame, x *ssa.Range) Value {
+// rangeAlts creates the iterator; a map whose membership is symbolic is split on the liveness
+// of each such entry so that the iteration sequence is concrete on every continuation.
+func (e *Exec) rangeAlts(st *State, fr *Frame, x *ssa.Range) ([]contAlt, bool) {
 	v := e.eval(st, fr, x.X)
-	o := e.newObject(types.Typ[types.Int], "iter")
-	st.heap[o] = e.ctx.BVConst(0, 64)
+	mkObj := func(s *State) *Object {
+		o := e.newObject(types.Typ[types.Int], "iter")
+		s.heap[o] = e.ctx.BVConst(0, 64)
+		return o
+	}
 	switch t := v.(type) {
 	case *StrV:
-		return &IterV{Obj: o, Str: t}
+		e.setReg(fr, x, &IterV{Obj: mkObj(st), Str: t})
+		return nil, true
 	case *MapV:
-		it := &IterV{Obj: o, Map: t}
-		if t.Obj != nil {
-			md := e.mapData(st, t)
-			for i, en := range md.Entries {
-				if en.Alive.IsTrue() {
-					it.Keys = append(it.Keys, i)
-				} else if !en.Alive.IsFalse() {
-					panic(unsupported("range over map with symbolic membership"))
+		if t.Obj == nil {
+			e.setReg(fr, x, &IterV{Obj: mkObj(st), Map: t})
+			return nil, true
+		}
+		md := e.mapData(st, t)
+		type part struct {
+			st   *State
+			fr   *Frame
+			keys []int
+		}
+		parts := []part{{st, fr, nil}}
+		for i, en := range md.Entries {
+			if en.Alive.IsFalse() {
+				continue
+			}
+			if en.Alive.IsTrue() {
+				for k := range parts {
+					parts[k].keys = append(parts[k].keys, i)
+				}
+				continue
+			}
+			var np []part
+			for _, p := range parts {
+				ts, fs := e.branch(p.st, en.Alive)
+				if ts != nil && fs != nil {
+					np = append(np, part{ts, p.fr, append(append([]int(nil), p.keys...), i)}, part{fs, p.fr.clone(), append([]int(nil), p.keys...)})
+				} else if ts != nil {
+					np = append(np, part{ts, p.fr, append(p.keys, i)})
+				} else if fs != nil {
+					np = append(np, part{fs, p.fr, p.keys})
 				}
 			}
+			parts = np
 		}
-		return it
+		if len(parts) == 0 {
+			return nil, false
+		}
+		var alts []contAlt
+		for _, p := range parts {
+			e.setReg(p.fr, x, &IterV{Obj: mkObj(p.st), Map: t, Keys: p.keys})
+			alts = append(alts, contAlt{p.st, p.fr})
+		}
+		if len(alts) == 1 && alts[0].st == st && alts[0].fr == fr {
+			return nil, true
+		}
+		return alts, true
 	}
 	panic(unsupported(fmt.Sprintf("range over %T", v)))
 }
